@@ -622,3 +622,7 @@ def check(run, replay=None):
     run.require_counter("variant_noshift_checks", 5)
     run.require_counter("variant_float32_runs", 50)
     run.require_counter("grainsinogram_recon_checks", 20)
+
+
+# workloads added in seeding rounds 7-10 (DESIGN.md sections 13.9-13.12)
+LEVEL_TEXT = LEVEL_TEXT + ' Later additions: filter histories against back-projection of an independently filtered sinogram; grains in the outer ring of 0-360 scans with the axis off the middle; exceptions reported per case.'
